@@ -248,6 +248,11 @@ func judgeAllN(c *core.Ctx, cfg string, header []record, recs []record, chunk, p
 // ---- the check
 
 func run(c *core.Ctx) error {
+	if os.Getenv("VERIF_C07_MERGED_BASE") == "" {
+		base := c.TempDir("c07m")
+		os.Setenv("VERIF_C07_MERGED_BASE", base)
+		defer os.RemoveAll(base)
+	}
 	c.SetRule("distinct non-trivial = distinct non-empty (min,max) handed to the real splitter + distinct adjacent float pairs + distinct (value,shift) codings + distinct (corpus,engine,bounds,flags) range queries that are not empty by construction + distinct sort requests")
 	c.SetExhaustive(false)
 	c.Assume("IEEE-754 binary64 `<` on non-NaN words is the sign-magnitude order (re-validated against Go's `<` on every recorded pair)")
